@@ -11,7 +11,7 @@ W=/tmp/seedchk-$(basename "$S")
 make -C "$W/src" >/dev/null 2>&1
 clean=$(sh "$S/demo.sh" "$W" 2>&1 | tail -1); crc=$?
 ( cd "$W" && git apply "$S/patch.diff" ) || { echo "$S: patch does not apply"; /verif/tools/rmworktree.sh "$W"; exit 2; }
-build=ok; make -C "$W/src" >/dev/null 2>&1 || build=FAILED
+touch "$W"/src/*.c; build=ok; make -j4 -C "$W/src" >/dev/null 2>&1 || build=FAILED
 tests=$(make -C "$W/test" check 2>&1 | grep -E "^# (PASS|FAIL)" | tr -d ' \n#')
 mut=$(sh "$S/demo.sh" "$W" 2>&1 | tail -1); mrc=$?
 chk=$(cd /verif && ECHSE_REPO="$W" ECHSE_NO_EVIDENCE=1 ./check "$PID" --tier quick 2>&1)
